@@ -73,7 +73,10 @@ impl Default for LocalMetadataClient {
 impl MetadataClient for LocalMetadataClient {
     async fn register_chunk(&self, path: &str, metadata: &ChunkMetadata) -> Result<()> {
         // Store chunk metadata
-        self.chunks.insert(path.to_string(), metadata.clone());
+        let registered_before = self
+            .chunks
+            .insert(path.to_string(), metadata.clone())
+            .is_some();
 
         // Index into all hour buckets that this chunk spans
         let start_bucket = Self::hour_bucket(metadata.min_timestamp);
@@ -81,6 +84,13 @@ impl MetadataClient for LocalMetadataClient {
 
         {
             let mut time_index = self.time_index.write();
+            if registered_before {
+                // Re-registration: the index must list the path once, under the new range only
+                for chunks in time_index.values_mut() {
+                    chunks.retain(|p| p != path);
+                }
+                time_index.retain(|_, chunks| !chunks.is_empty());
+            }
             let mut bucket = start_bucket;
             while bucket <= end_bucket {
                 time_index.entry(bucket).or_default().push(path.to_string());
